@@ -57,6 +57,10 @@ pub fn script(rng: &mut Rng) -> Vec<Step> {
                 if rng.chance(500) {
                     t.push_str("// ünïcödé → 漢 𝄞\n");
                 }
+                if rng.chance(150) {
+                    // text that looks like framing, inside a document
+                    t.push_str("// Content-Length: 5\r\n\r\n{\"jsonrpc\":\"2.0\"}\r\n// Content-Type: x\n");
+                }
                 t
             }
         };
